@@ -367,9 +367,13 @@ def native_history(shear, key, rnd=None):
     rnd = rnd or numpy.random.RandomState(11)
     S = shear.ShearElasticModulusPhononContribution
     keys = all_keys()
-    for n_obj in range(3):
+    for n_obj in range(5):
         e = rnd.uniform(0.1, 1.0, size=(2, 3))
         e = e / e.sum(axis=1)[:, None]
+        if n_obj == 3:
+            e = numpy.array([[0.2, 0.3, 0.5], [0.2, 0.3, 0.5]])            # the same anisotropic triple at every volume
+        elif n_obj == 4:
+            e = numpy.array([[1 / 3, 1 / 3, 1 / 3], [0.2, 0.3, 0.5]])      # isotropic first row, anisotropic later
         o = S(e.copy(), key)
         try:
             T = numpy.asarray(o.transformation_matrix, dtype=float)
@@ -444,7 +448,9 @@ def native_strain_rotated(shear):
     """real strain_rotated against sum_i T_ia^2 e_i for strain triples that do and do not sum to one"""
     S = shear.ShearElasticModulusPhononContribution
     for key in [k for k in all_keys() if k.is_shear]:
-        for strain in ([[0.2, 0.3, 0.5], [0.1, 0.6, 0.3]], [[1.0, 2.0, 3.0], [0.5, 0.25, 0.125]], [[1.0, 1.0, 1.0]]):
+        # generic fields and fields with special structure (one row; the same anisotropic triple at every volume; a first row that is isotropic while later rows are not)
+        for strain in ([[0.2, 0.3, 0.5], [0.1, 0.6, 0.3]], [[1.0, 2.0, 3.0], [0.5, 0.25, 0.125]], [[1.0, 1.0, 1.0]], [[0.2, 0.3, 0.5]], [[0.2, 0.3, 0.5], [0.2, 0.3, 0.5], [0.2, 0.3, 0.5]],
+                       [[1 / 3, 1 / 3, 1 / 3], [0.2, 0.3, 0.5], [0.25, 0.35, 0.4]], [[0.3, 0.3, 0.3], [0.3, 0.3, 0.3]]):
             e = numpy.array(strain)
             o = S(e, key)
             T = numpy.asarray(o.transformation_matrix, dtype=float)
